@@ -106,13 +106,26 @@ func operand[V any](c *cfg[V], sel int, set col.SetLike[V], m []V) (col.Sequenti
 	case 4:
 		v := []V{u[2], u[0], u[1]}
 		return col.Array[V](common.N()).MakeFromArray(v), v
+	case 6, 7:
+		// the operand is itself a set with a collator of its own: the receiver's order reversed (6) or the default
+		// collator (7) - what it holds, in its own order, is what is handed over
+		var src col.SetLike[V]
+		if sel == 6 {
+			src = col.Set[V](common.N()).MakeWithCollator(&FnCollator[V]{Name: "reversed", F: func(a, b V) age.Rank { return c.rank(b, a) }})
+		} else {
+			src = col.Set[V](common.N()).Make()
+		}
+		for _, v := range []V{u[2], u[0], u[len(u)-1], u[1]} {
+			src.AddValue(v)
+		}
+		return src, src.AsArray()
 	default:
 		v := []V{u[len(u)/2]}
 		return L.MakeFromArray(v), v
 	}
 }
 
-const nOperands = 6
+const nOperands = 8
 
 func newSet[V any](c *cfg[V]) col.SetLike[V] {
 	if c.collator != nil {
